@@ -62,7 +62,13 @@ func (g *Gen) GenQueries(targets []string, n int) []ClientOp {
 				}
 			}
 		}
-		out = append(out, ClientOp{Kind: "get", Target: t, Query: q, JSON: g.chance(1, 3)})
+		cop := ClientOp{Kind: "get", Target: t, Query: q, JSON: g.chance(1, 3)}
+		if g.chance(1, 3) {
+			// part (or all) of the path travels in the request prefix
+			cop.Split = 1 + g.pick(len(q))
+			cop.EmptyPath = g.chance(1, 2)
+		}
+		out = append(out, cop)
 	}
 	return out
 }
